@@ -113,6 +113,15 @@ func propC04(c *Ctx) {
 		c.seed("long-key", strings.Repeat("é", n/2), strings.Repeat("ｶﾞ", n/6))
 		c.seed("long-salt", "m", strings.Repeat("z", n))
 	}
+	// arguments that SHRINK under NFKD: supplementary-plane compatibility letters (4 bytes each, one ASCII letter
+	// after normalisation), in lengths around the 128-byte HMAC block on either side of the normalisation — a
+	// decision taken on the raw length (pre-hashing "long" keys, buffer sizing) is wrong exactly here
+	for _, n := range []int{31, 32, 33, 64, 96, 97, 100, 127, 128, 129, 200} {
+		bold := strings.Repeat("\U0001D41A", n)
+		c.seed("shrinking-under-nfkd", bold, "p")
+		c.seed("shrinking-under-nfkd", "m", bold)
+		c.seed("shrinking-under-nfkd", strings.Repeat("\U0001D7D8\U0001D552", n/2), strings.Repeat("\u3392", n/3+1))
+	}
 	nr := 30 * c.scale
 	if !c.quick {
 		nr = 1500
@@ -249,6 +258,53 @@ func propC10(c *Ctx) {
 		c.respell(li, strings.Join(toks[:11], " "), false)
 		toks[0] = "é" + toks[0]
 		c.respell(li, strings.Join(toks, " "), false)
+	}
+	// cased and case-less compatibility spellings of ONE letter of a valid sentence: ASCII capitals, full-width
+	// and circled capitals, capital Roman numerals, U+0130 (capital I with dot), the Kelvin sign.  None of them
+	// has the list word as its NFKD form, so every spelling must be rejected, alike in all normal forms — a
+	// validator that folds case before (or instead of) normalising accepts some spellings and not their
+	// NFD/NFKD twins
+	for li := range langVals {
+		l := int64(langVals[li])
+		s := strings.ReplaceAll(c.specSentence(l, c.randBytes(entSizes[(li+int(r.Seed))%5])), "　", " ")
+		rs := []rune(s)
+		var latin []int
+		for i, ch := range rs {
+			if ch >= 'a' && ch <= 'z' {
+				latin = append(latin, i)
+			}
+		}
+		if len(latin) == 0 {
+			continue
+		}
+		for k := 0; k < 6*c.scale; k++ {
+			i := latin[c.rng.Intn(len(latin))]
+			ch := rs[i]
+			vars := []rune{ch - 'a' + 'A', ch - 'a' + 0xFF21, ch - 'a' + 0x24B6}
+			switch ch {
+			case 'i':
+				vars = append(vars, 0x0130, 0x2160)
+			case 'k':
+				vars = append(vars, 0x212A)
+			case 'v':
+				vars = append(vars, 0x2164)
+			case 'x':
+				vars = append(vars, 0x2169)
+			case 'l':
+				vars = append(vars, 0x216C)
+			case 'c':
+				vars = append(vars, 0x216D)
+			case 'd':
+				vars = append(vars, 0x216E)
+			case 'm':
+				vars = append(vars, 0x216F)
+			}
+			for _, v := range vars {
+				t := append([]rune(nil), rs...)
+				t[i] = v
+				c.respell(li, string(t), false)
+			}
+		}
 	}
 	nr := 40 * c.scale
 	if !c.quick {
